@@ -17,6 +17,7 @@ use std::net::{Ipv4Addr, Ipv6Addr};
 use std::sync::{Arc, Mutex};
 use bytes::Bytes;
 use futures_util::FutureExt;
+use tokio::io::AsyncWrite;
 use rayon::prelude::*;
 use rpki::crypto::keys::KeyIdentifier;
 use rpki::resources::addr::{MaxLenPrefix, Prefix};
@@ -131,25 +132,44 @@ impl Val {
                 format!("Key{{v:{v},flags:{flags:#x},ski:{:#04x}..,asn:{asn:#x},info:{}x{:#04x}}}", ski[0], info.len(), info.first().copied().unwrap_or(0)),
             Val::Aspa { v, flags, customer, providers } =>
                 format!("Aspa{{v:{v},flags:{flags:#x},customer:{customer:#x},providers:{}x{:#x}..}}", providers.len(), providers.first().copied().unwrap_or(0)),
-            Val::Error { v, code, pdu, text } => format!("Error{{v:{v},code:{code},pdu:{} octets,text:{} octets}}", pdu.len(), text.len()),
+            Val::Error { v, code, pdu, text } => {
+                let short = |b: &[u8]| if b.len() <= 12 { format!("[{}]", hex(b)) } else { format!("[{}..]x{}", hex(&b[..6]), b.len()) };
+                format!("Error{{v:{v},code:{code},pdu:{},text:{}}}", short(pdu), short(text))
+            }
             other => format!("{other:?}").replace(' ', ""),
         }
     }
 }
 
+/// Writes a PDU with the library, either through the type's own `write`
+/// or (payload PDUs, end of data) through the `Payload` / `EndOfData` enums.
+async fn write_built<W: AsyncWrite + Unpin>(b: &Built, via_enum: bool, w: &mut W) -> io::Result<()> {
+    match (b, via_enum) {
+        (Built::V4(p), true) => pdu::Payload::V4(*p).write(w).await,
+        (Built::V6(p), true) => pdu::Payload::V6(*p).write(w).await,
+        (Built::Key(p), true) => pdu::Payload::RouterKey(p.clone()).write(w).await,
+        (Built::Aspa(p), true) => pdu::Payload::Aspa(p.clone()).write(w).await,
+        (Built::EodV0(p), true) => pdu::EndOfData::V0(*p).write(w).await,
+        (Built::EodV1(p), true) => pdu::EndOfData::V1(*p).write(w).await,
+        (Built::SerialNotify(p), _) => p.write(w).await, (Built::SerialQuery(p), _) => p.write(w).await,
+        (Built::ResetQuery(p), _) => p.write(w).await, (Built::CacheResponse(p), _) => p.write(w).await,
+        (Built::V4(p), _) => p.write(w).await, (Built::V6(p), _) => p.write(w).await,
+        (Built::Key(p), _) => p.write(w).await, (Built::Aspa(p), _) => p.write(w).await,
+        (Built::EodV0(p), _) => p.write(w).await, (Built::EodV1(p), _) => p.write(w).await,
+        (Built::CacheReset(p), _) => p.write(w).await, (Built::Error(p), _) => p.write(w).await,
+    }
+}
+
 impl Built {
-    /// The octets the library writes.
+    fn has_enum_path(&self) -> bool {
+        matches!(self, Built::V4(_) | Built::V6(_) | Built::Key(_) | Built::Aspa(_) | Built::EodV0(_) | Built::EodV1(_))
+    }
+
+    /// The octets the library writes into a Vec.
     fn wire(&self) -> Vec<u8> {
         let mut out: Vec<u8> = Vec::new();
-        let r = match self {
-            Built::SerialNotify(p) => p.write(&mut out).now_or_never(), Built::SerialQuery(p) => p.write(&mut out).now_or_never(),
-            Built::ResetQuery(p) => p.write(&mut out).now_or_never(), Built::CacheResponse(p) => p.write(&mut out).now_or_never(),
-            Built::V4(p) => p.write(&mut out).now_or_never(), Built::V6(p) => p.write(&mut out).now_or_never(),
-            Built::Key(p) => p.write(&mut out).now_or_never(), Built::Aspa(p) => p.write(&mut out).now_or_never(),
-            Built::EodV0(p) => p.write(&mut out).now_or_never(), Built::EodV1(p) => p.write(&mut out).now_or_never(),
-            Built::CacheReset(p) => p.write(&mut out).now_or_never(), Built::Error(p) => p.write(&mut out).now_or_never(),
-        };
-        r.expect("writing to a Vec is never pending").expect("writing to a Vec cannot fail");
+        write_built(self, false, &mut out).now_or_never()
+            .expect("writing to a Vec is never pending").expect("writing to a Vec cannot fail");
         out
     }
 }
@@ -414,6 +434,27 @@ fn exec(rds: &[Rd], stream: &[u8], script: &[Ev]) -> Run {
         };
         let steps = steps.lock().unwrap().clone();
         Run { steps, pending_at_quiescence: pending, end, livelock: ctl.livelock(), spin: tr.spin || q.spin }
+    }))
+}
+
+
+/// Observations of one write.
+struct WriteRun { res: Option<Result<(), String>>, out: Vec<u8>, writes: u64, end: End, spin: bool }
+
+/// Writes one PDU into the scripted socket under `script` (chunk limits,
+/// short first write, vectored support, back-pressure and release).
+fn exec_write(built: &Built, via_enum: bool, script: &[Ev]) -> WriteRun {
+    SCHED.with(|s| s.borrow().run(async {
+        let (sock, ctl) = sock_pair();
+        let b = built.clone();
+        // the task is polled for the first time at the first Settle: settings before it apply from the start
+        let h = tokio::spawn(async move { let mut sock = sock; let r = write_built(&b, via_enum, &mut sock).await; (r.map_err(|e| err_text(&e)), sock) });
+        let tr = play(&ctl, &[], None, script).await;
+        let q = quiesce(&[&ctl]).await;
+        let (end, res) = match join_within(h, HORIZON).await {
+            Joined::Done((r, _sock)) => (End::Done, Some(r)), Joined::Panicked(m) => (End::Panicked(m), None), Joined::Stuck => (End::Stuck, None),
+        };
+        WriteRun { res, out: ctl.output(), writes: ctl.writes(), end, spin: tr.spin || q.spin }
     }))
 }
 
@@ -744,24 +785,42 @@ fn values(thorough: bool) -> Vec<Val> {
     // router keys
     let mut seq = [0u8; 20]; for (i, b) in seq.iter_mut().enumerate() { *b = i as u8 + 1 }
     let skis: Vec<[u8; 20]> = if thorough { vec![[0; 20], [0xFF; 20], seq] } else { vec![[0xFF; 20], seq] };
-    for &v in &vers { for &fl in flags { for &asn in asns { for ski in &skis { for n in [0usize, 1, 91, 255, 256] {
+    for &v in &vers { for &fl in flags { for &asn in asns { for ski in &skis { for n in [0usize, 1, 91, 255, 256, 1023, 1024, 1025] {
+        if n > 256 && (fl > 1 || asn == 1) { continue }
         let info: Vec<u8> = (0..n).map(|i| (i as u8) ^ 0xA5).collect();
         out.push(Val::Key { v, flags: fl, ski: *ski, asn, info });
     } } } } }
     // ASPA
-    for &v in &vers { for &fl in flags { for &customer in asns { for n in [0usize, 1, 2, 255, 16380] {
+    for &v in &vers { for &fl in flags { for &customer in asns { for n in [0usize, 1, 2, 255, 256, 16380] {
         for base in if thorough { vec![0u32, 0xFFFF_0000] } else { vec![0xFFFF_0000u32] } {
             let providers: Vec<u32> = (0..n).map(|i| base + i as u32).collect();
             out.push(Val::Aspa { v, flags: fl, customer, providers });
             if n == 0 { break }
         }
     } } } }
-    // error reports
+    // error reports: lengths around skip_payload's 1024-octet buffer ...
     for &v in &vers { for code in [0u16, 4, 0xFFFF] {
-        for (pl, tl) in [(0usize, 0usize), (0, 1), (12, 0), (12, 20), (0, 1015), (0, 1016), (0, 1017), (12, 2028), (12, 2029), (1500, 1500)] {
+        for (pl, tl) in [(12usize, 20usize), (0, 1015), (0, 1016), (0, 1017), (12, 2028), (12, 2029), (1500, 1500)] {
             if !thorough && code == 0xFFFF && pl + tl > 100 { continue }
             out.push(Val::Error { v, code, pdu: (0..pl).map(|i| i as u8).collect(), text: (0..tl).map(|i| b'a' + (i % 26) as u8).collect() });
         }
+    } }
+    // ... and contents of every kind in both variable fields: empty, ASCII,
+    // valid multi-byte UTF-8, invalid UTF-8 (lone continuation octet, 0xFF,
+    // sequences cut short, Latin-1), NUL, and 1023/1024/1025 non-text octets
+    let contents: Vec<Vec<u8>> = vec![
+        vec![], b"abc".to_vec(), "\u{e9}\u{20ac}\u{1f600}".as_bytes().to_vec(),
+        vec![0x80], vec![0xFF], vec![0xE2, 0x82], vec![0xF0, 0x9F, 0x98], b"caf\xe9 au lait".to_vec(), vec![0], vec![b'a', 0, b'b'],
+        vec![0xFF; 1023], vec![0x80; 1024], (0..1025).map(|i| (i % 256) as u8).collect(),
+    ];
+    let embedded: Vec<Vec<u8>> = vec![vec![], vec![1, 2, 0, 0, 0, 0, 0, 8], vec![0xFF; 8]];
+    for &v in &vers { for code in [0u16, 4, 0xFFFF] {
+        if !thorough && code == 0xFFFF { continue }
+        for text in &contents { for pdu in &embedded { out.push(Val::Error { v, code, pdu: pdu.clone(), text: text.clone() }) } }
+        for pdu in &contents { for text in [&b""[..], &b"diag"[..]] {
+            if pdu.is_empty() || embedded.contains(pdu) { continue }
+            out.push(Val::Error { v, code, pdu: pdu.clone(), text: text.to_vec() })
+        } }
     } }
     out
 }
@@ -871,6 +930,60 @@ fn judge_roundtrip(acc: &mut Acc, val: &Val, wire: &[u8], rd: Rd, script: &[Ev])
                 Got::Skipped(_) => "read-back:skipped-error", Got::SerialBody(..) => "read-back:header+serial", _ => "read-back:other" } });
         }
     }
+}
+
+/// The scripts of the writer dimension for a PDU of `len` octets.
+fn writer_scripts(len: usize) -> Vec<Vec<Ev>> {
+    let mut out = Vec::new();
+    for vect in [false, true] {
+        let pre: Vec<Ev> = if vect { vec![Ev::Vectored] } else { vec![] };
+        let mk = |evs: &[Ev]| -> Vec<Ev> { let mut v = pre.clone(); v.extend_from_slice(evs); v };
+        out.push(mk(&[Ev::Settle]));
+        for c in [1usize, 2, 7, 11, 12, 31, 32, 33] {
+            out.push(mk(&[Ev::WriteChunk(c), Ev::Settle]));
+            out.push(mk(&[Ev::ShortWrite(c), Ev::Settle]));
+        }
+        for k in dedup(vec![0usize, 1, 7, 11, 12, 31, 32, 33, len - 1]) {
+            if k < len { out.push(mk(&[Ev::WriteBudget(k), Ev::Settle, Ev::Unblock, Ev::Settle])) }
+        }
+    }
+    out
+}
+
+/// One PDU written into the scripted socket: the octets that arrive must be
+/// the ones a Vec receives, their number must be the length field, and they
+/// must read back as the value.
+fn judge_writer(acc: &mut Acc, val: &Val, built: &Built, wire: &[u8], via_enum: bool, script: &[Ev]) {
+    let wit = || format!("pdu={} writer={} sched={}", val.render(), if via_enum { "enum::write" } else { "write" }, render_script(script));
+    if skip_for_replay(script, &wit) { return }
+    let run = exec_write(built, via_enum, script);
+    acc.evals += 1;
+    if run.writes >= 2 { acc.nontrivial += 1 }
+    let mut ok = true;
+    match (&run.end, &run.res) {
+        (End::Panicked(m), _) => { acc.fail("C07.rt.no_panic", &wit, m.clone()); ok = false }
+        (End::Stuck, _) => { acc.fail("C07.rt.writer_completes", &wit, "write still pending after the back-pressure was lifted".into()); ok = false }
+        (_, Some(Err(e))) => { acc.fail("C07.rt.writer_completes", &wit, format!("write fails on a healthy socket: {e}")); ok = false }
+        _ => {}
+    }
+    if run.spin { acc.fail("C07.rt.writer_completes", &wit, "no quiescence (spin)".into()); ok = false }
+    if !ok { acc.class("violation"); return }
+    if run.out.len() >= 8 {
+        let announced = u32::from_be_bytes([run.out[4], run.out[5], run.out[6], run.out[7]]) as usize;
+        if announced != run.out.len() {
+            acc.fail("C07.rt.writer_length_field", &wit, format!("length field {announced}, {} octets reached the socket (write returned Ok): {}", run.out.len(), show(&run.out)));
+            ok = false;
+        }
+    }
+    if run.out != wire {
+        let d = run.out.iter().zip(wire.iter()).position(|(a, b)| a != b).unwrap_or(run.out.len().min(wire.len()));
+        acc.fail("C07.rt.writer_octets", &wit, format!("{} octets reached the socket, {} go into a Vec; first difference at octet {d}; socket {} vec {}", run.out.len(), wire.len(), show(&run.out), show(wire)));
+        ok = false;
+    }
+    acc.class(if !ok { "violation" } else if run.writes >= 2 { "written:in-pieces" } else { "written:one-call" });
+    // read back what reached the socket
+    let rd = readers_for(val.ty())[0];
+    judge_roundtrip(acc, val, &run.out, rd, &[Ev::Deliver(run.out.len()), Ev::Settle]);
 }
 
 /// One fault case: `rds` in sequence over `stream` (which then ends).
@@ -1060,6 +1173,24 @@ fn main() {
     sp.sample_str(|| { let v = &vals[vals.len() / 2]; format!("{} -> {}", v.render(), show(&v.build().wire())) });
     sp.sample_str(|| { let v = vals.iter().find(|v| matches!(v, Val::Aspa { providers, .. } if providers.len() == 2)).unwrap(); format!("{} -> {}", v.render(), show(&v.build().wire())) });
     sp.done(true, &format!("{} values x readers x fragmentations into <= 3 chunks ({} for long PDUs)", vals.len(), max_cuts_long + 1));
+
+    //--- (1b) the writer as a dimension ------------------------------------------
+    let sp = ctx.space("roundtrip.writer",
+        "every value written by the library (type's own write; payload PDUs and end of data also through the Payload / EndOfData enums) into the scripted socket, with and without native vectored writes, under: no limit; every write call limited to c octets; only the first write call limited to c octets (c in 1,2,7,11,12,31,32,33); back-pressure after k octets then release (k in 0,1,7,11,12,31,32,33,len-1); the octets that reach the socket must equal the Vec rendering, their number must equal the length field, and they must read back as the value; non-trivial = writes that went out in >= 2 pieces (measured)");
+    let accs: Vec<Acc> = vals.par_iter().map(|val| {
+        let mut acc = Acc::default();
+        let Ok((built, wire)) = rpki_verif::guard(|| { let b = val.build(); let w = b.wire(); (b, w) }) else { return acc };
+        let scripts = writer_scripts(wire.len());
+        for via in [false, true] {
+            if via && !built.has_enum_path() { continue }
+            for sc in &scripts { judge_writer(&mut acc, val, &built, &wire, via, sc) }
+        }
+        acc
+    }).collect();
+    report(&ctx, &sp, accs);
+    sp.sample_str(|| { let v = vals.iter().find(|v| matches!(v, Val::Key { info, .. } if info.len() == 1)).unwrap();
+        format!("{} sched={}", v.render(), render_script(&writer_scripts(33)[20])) });
+    sp.done(true, &format!("{} values x {} writer scripts x write paths", vals.len(), writer_scripts(64).len()));
 
     //--- (2) round trip of whole replies through the client ------------------
     let sp = ctx.space("roundtrip.client",
